@@ -204,7 +204,7 @@ fn gen_scenario(rng: &mut Rng, quick: bool) -> Sc {
                         p.kind = Kind::Big;
                         p.size = BIG;
                         p.open_at = *rng.pick(&[OpenAt::Pre, OpenAt::AfterEnter]);
-                        p.read_before = *rng.pick(&[0usize, 0, 1, 4096, 200_000]);
+                        p.read_before = *rng.pick(&[0usize, 0, 1, 4096, 100_000]);
                     } else {
                         p.phase = Phase::P2;
                         p.kind = Kind::Gated;
@@ -298,8 +298,10 @@ fn client(p: &Plan, env: &Env) -> COut {
     };
     out.connected = true;
     conn.timeout = WD_READ;
-    if p.phase == Phase::P3 || p.slow_reader {
-        small_rcvbuf(&conn);
+    if p.phase == Phase::P3 {
+        small_rcvbuf(&conn, 32 << 10);
+    } else if p.slow_reader {
+        small_rcvbuf(&conn, 128 << 10);
     }
     let bytes = encode(p);
     let log = env.log;
@@ -483,6 +485,9 @@ pub fn run_scenario(out: &mut Out, seed: u64, shard: u64, case: u64, quick: bool
     let m = mode_tag(sc.mode);
     let ident = json!({"seed": seed, "shard": shard, "case": case, "scenario": sc.json()});
 
+    let trace = std::env::var("VMON_HIST_TRACE").is_ok();
+    let t0 = Instant::now();
+    let mut marks: Vec<(&str, f64)> = vec![];
     let mut couts: Vec<COut> = vec![];
     let mut stuck: Vec<u64> = vec![];
     let mut victims_wd = false;
@@ -507,6 +512,7 @@ pub fn run_scenario(out: &mut Out, seed: u64, shard: u64, case: u64, quick: bool
             }
             std::thread::sleep(Duration::from_micros(200));
         }
+        marks.push(("victims_done", t0.elapsed().as_secs_f64()));
         // release: non-victims waiting for the driver; in detached mode also the
         // victims (their handlers must now run to completion without a client)
         for p in &sc.plans {
@@ -527,6 +533,7 @@ pub fn run_scenario(out: &mut Out, seed: u64, shard: u64, case: u64, quick: bool
             }));
         }
     });
+    marks.push(("clients_joined", t0.elapsed().as_secs_f64()));
     if victims_wd {
         rep.inconclusive("c16-victim-phase-watchdog");
     }
@@ -564,6 +571,7 @@ pub fn run_scenario(out: &mut Out, seed: u64, shard: u64, case: u64, quick: bool
             }
         }
     }
+    marks.push(("strict_checked", t0.elapsed().as_secs_f64()));
     // now open every remaining gate and let the server come to rest
     for p in &sc.plans {
         if !matches!(p.kind, Kind::Panicking | Kind::PanicPipe) && !ctx.gates.is_open(p.uid) {
@@ -571,11 +579,17 @@ pub fn run_scenario(out: &mut Out, seed: u64, shard: u64, case: u64, quick: bool
         }
     }
     let quiescent = wait_handlers_ended(&log, Duration::from_secs(15));
+    marks.push(("quiescent", t0.elapsed().as_secs_f64()));
     let health_res = health(&env);
+    marks.push(("health", t0.elapsed().as_secs_f64()));
     drop(hogs);
     let closed = close_with_watchdog(&mut running, 20);
+    marks.push(("closed", t0.elapsed().as_secs_f64()));
     let events = log.snapshot();
     drop(running);
+    if trace {
+        eprintln!("case {case} {} n={} ev={} {:?}", sc.json(), sc.plans.len(), events.len(), marks);
+    }
 
     // ------------------------------------------------------------- oracle
     let idx = index(&events);
